@@ -1,36 +1,53 @@
 --------------------------- MODULE PartitionTrace ---------------------------
 (***************************************************************************)
-(* C14 bound to the code: harness/partdrv.c evaluates the real             *)
-(* lp_global_init(), partition_start, lid_to_nid, lid_to_rid for every     *)
-(* (L, N, T) triple and every rank, one trace line per (triple, rank).     *)
-(* Each line is checked (a) against the invariants of C14 stated on the    *)
-(* dumped tables themselves and (b) against the Partition specification.   *)
+(* C14 bound to the code: harness/partdrv.c runs the real lp_global_init, *)
+(* lp_init and lp_fini for every (L, N, T) triple, every rank and every    *)
+(* worker, one trace line per (triple, rank): the range the rank claims,   *)
+(* the range each worker claims, what an outside observer saw (which       *)
+(* worker dispatched LP_INIT / LP_FINI of which LP: field obs), and the    *)
+(* tables of the routing functions lid_to_nid / lid_to_rid.                *)
+(*                                                                         *)
+(* Verdict layer: C14 stated on the dumped tables themselves (it does not  *)
+(* prescribe a particular distribution).  Reference layer: equality with   *)
+(* the formulas of Partition.tla (on which TLC proves C14 for every triple *)
+(* of PartitionMC): differences are counted as divergences, never alarms.  *)
 (***************************************************************************)
 EXTENDS Partition, TLC, Json, IOUtils
 
 TraceLog == ndJsonDeserialize(IOEnv.TRACE)
-VARIABLES l, bad
+VARIABLES l, bad, prevEnd, div
 Line == TraceLog[l]
 
 Checks(x) ==
   LET L == x.L  N == x.N  T == x.T  k == x.nid  first == x.first  cnt == x.cnt  t == x.thr IN
-  << <<first = NodeFirst(k, L, N) /\ cnt = NodeCount(k, L, N), "ranges of the ranks are not contiguous/covering or disagree with the specification">>,
-     <<\A lp \in 0..(L - 1) : x.nidof[lp + 1] = NidOf(lp, L, N), "lid_to_nid differs from the specification">>,
+  << <<(k = 0 => first = 0) /\ (k > 0 => first = prevEnd) /\ (k = N - 1 => first + cnt = L) /\ cnt >= 0,
+       "ranges of the ranks are not contiguous or do not cover all LP identifiers">>,
      <<\A lp \in 0..(L - 1) : (x.nidof[lp + 1] = k) = (lp >= first /\ lp < first + cnt), "routing to a rank disagrees with the rank's ownership range">>,
-     <<t = Clamp(T, cnt), "thread count not clamped to the number of hosted LPs">>,
+     <<\A lp \in 0..(L - 1) : x.nidof[lp + 1] >= 0 /\ x.nidof[lp + 1] < N, "an LP is routed to a rank that does not exist">>,
+     <<cnt > 0 => t >= 1, "a rank that hosts LPs runs no worker">>,
      <<cnt > 0 => (x.tf[1] = first /\ x.te[t] = first + cnt /\ \A r \in 1..(t - 1) : x.te[r] = x.tf[r + 1]), "thread ranges are not contiguous/covering">>,
-     <<cnt > 0 => \A r \in 1..t : x.tf[r] < x.te[r], "a thread is left without LPs although the rank hosts at least as many LPs as threads">>,
+     <<cnt >= t => \A r \in 1..t : x.tf[r] < x.te[r], "a thread is left without LPs although the rank hosts at least as many LPs as threads">>,
      <<cnt > 0 => \A i \in 1..cnt : LET lp == first + i - 1  r == x.ridof[i] IN r >= 0 /\ r < t /\ x.tf[r + 1] <= lp /\ lp < x.te[r + 1],
        "lid_to_rid routes an LP to a thread that does not own it">>,
-     <<cnt > 0 => \A r \in 1..t : x.tf[r] = ThreadFirst(r - 1, first, cnt, t), "thread ranges differ from the specification">> >>
+     <<x.obs = 1, "the LPs a worker initialises/finalises are not exactly its ownership range, each once">> >>
 
-TInit == l = 1 /\ bad = <<>> /\ TLCSet(1, 0) /\ TLCSet(2, <<>>)
+\* reference layer: the code computes the same tables as the specification
+RefDiffs(x) ==
+  LET L == x.L  N == x.N  T == x.T  k == x.nid  first == x.first  cnt == x.cnt  t == x.thr IN
+  (IF first = NodeFirst(k, L, N) /\ cnt = NodeCount(k, L, N) THEN 0 ELSE 1)
+  + (IF \A lp \in 0..(L - 1) : x.nidof[lp + 1] = NidOf(lp, L, N) THEN 0 ELSE 1)
+  + (IF t = Clamp(T, cnt) THEN 0 ELSE 1)
+  + (IF cnt > 0 /\ t = Clamp(T, cnt) /\ first = NodeFirst(k, L, N) /\ cnt = NodeCount(k, L, N) /\ ~(\A r \in 1..t : x.tf[r] = ThreadFirst(r - 1, first, cnt, t)) THEN 1 ELSE 0)
+
+TInit == l = 1 /\ bad = <<>> /\ prevEnd = 0 /\ div = 0 /\ TLCSet(1, 0) /\ TLCSet(2, <<>>) /\ TLCSet(3, 0)
 TRow ==
   /\ l <= Len(TraceLog) /\ bad = <<>> /\ Line.e = "Part"
   /\ l' = l + 1
+  /\ prevEnd' = Line.first + Line.cnt
+  /\ div' = div + RefDiffs(Line)
   /\ LET f == SelectSeq(Checks(Line), LAMBDA c : ~c[1]) IN
        bad' = [i \in 1..Len(f) |-> [p |-> "C14", w |-> f[i][2], at |-> l]]
-TSpec == TInit /\ [][TRow]_<<l, bad>>
-Progress == TLCSet(1, IF l > TLCGet(1) THEN l ELSE TLCGet(1)) /\ (bad # <<>> => TLCSet(2, bad))
-Post == PrintT(<<"RESULT", TLCGet(1) - 1, Len(TraceLog), TLCGet(2)>>)
+TSpec == TInit /\ [][TRow]_<<l, bad, prevEnd, div>>
+Progress == TLCSet(1, IF l > TLCGet(1) THEN l ELSE TLCGet(1)) /\ (bad # <<>> => TLCSet(2, bad)) /\ TLCSet(3, div)
+Post == PrintT(<<"RESULT", TLCGet(1) - 1, Len(TraceLog), TLCGet(2)>>) /\ PrintT(<<"DIVERGENCES", TLCGet(3)>>)
 =============================================================================
